@@ -52,7 +52,8 @@ package bluemonday
 //@ func (*bluemonday.Policy).sanitize
 //@   sets lastErr = result
 //@   reveal[C14] wfRegex
-//@   requires wfp(p) && p.initialized && r != nil && w != nil
+//@   requires wfp(p) && r != nil && w != nil
+//@   requires[C01,C02,C03,C04,C05,C06,C07,C08,C09,C10,C11,C12,C13,C14,C16,C17,C18,C19,C20] p.initialized
 //@   requires[C16] !outFailed
 //@   modifies ghost outFailed, outN, outLast, outCount, tzCur, tzPrev, tzErr, sanEl, sanRes, lastErr, lastBuf, gD, gSP, gName, gBare, gKept, gCnt, gSkip, gTopBare, gTopKept, gShadow
 //@   modifies nothing
@@ -135,7 +136,8 @@ package bluemonday
 
 //@ func (*bluemonday.Policy).sanitizeWithBuff
 //@   sets lastBuf = result
-//@   requires wfp(p) && p.initialized && r != nil
+//@   requires wfp(p) && r != nil
+//@   requires[C01,C02,C03,C04,C05,C06,C07,C08,C09,C10,C11,C12,C13,C14,C16,C17,C18,C19,C20] p.initialized
 //@   requires[C16] !outFailed
 //@   modifies ghost outFailed, outN, outLast, outCount, tzCur, tzPrev, tzErr, sanEl, sanRes, lastErr, lastBuf, gD, gSP, gName, gBare, gKept, gCnt, gSkip, gTopBare, gTopKept, gShadow
 //@   modifies nothing
@@ -145,7 +147,8 @@ package bluemonday
 
 //@ func (*bluemonday.Policy).SanitizeReader
 //@   ensures[C15] result == lastBuf
-//@   requires wfp(p) && p.initialized && r != nil
+//@   requires wfp(p) && r != nil
+//@   requires[C01,C02,C03,C04,C05,C06,C07,C08,C09,C10,C11,C12,C13,C14,C16,C17,C18,C19,C20] p.initialized
 //@   requires[C16] !outFailed
 //@   modifies ghost outFailed, outN, outLast, outCount, tzCur, tzPrev, tzErr, sanEl, sanRes, lastErr, lastBuf, gD, gSP, gName, gBare, gKept, gCnt, gSkip, gTopBare, gTopKept, gShadow
 //@   modifies nothing
@@ -154,7 +157,8 @@ package bluemonday
 
 //@ func (*bluemonday.Policy).SanitizeReaderToWriter
 //@   ensures[C15] result == lastErr
-//@   requires wfp(p) && p.initialized && r != nil && w != nil
+//@   requires wfp(p) && r != nil && w != nil
+//@   requires[C01,C02,C03,C04,C05,C06,C07,C08,C09,C10,C11,C12,C13,C14,C16,C17,C18,C19,C20] p.initialized
 //@   requires[C16] !outFailed
 //@   modifies ghost outFailed, outN, outLast, outCount, tzCur, tzPrev, tzErr, sanEl, sanRes, lastErr, lastBuf, gD, gSP, gName, gBare, gKept, gCnt, gSkip, gTopBare, gTopKept, gShadow
 //@   modifies nothing
@@ -370,7 +374,8 @@ package bluemonday
 //@     invariant forall j int :: 0 <= j && j <= rangeindex ==> !strings.EqualFold(at(fieldsArr(rel), 0, j), token)
 
 //@ func (*bluemonday.Policy).Sanitize
-//@   requires wfp(p) && p.initialized
+//@   requires wfp(p)
+//@   requires[C01,C02,C03,C04,C05,C06,C07,C08,C09,C10,C11,C12,C13,C14,C16,C17,C18,C19,C20] p.initialized
 //@   requires[C16] !outFailed
 //@   modifies ghost outFailed, outN, outLast, outCount, tzCur, tzPrev, tzErr, sanEl, sanRes, lastErr, lastBuf, gD, gSP, gName, gBare, gKept, gCnt, gSkip, gTopBare, gTopKept, gShadow
 //@   modifies nothing
@@ -378,7 +383,8 @@ package bluemonday
 //@   ensures[C15] strings.TrimSpace(s) != "" ==> result == bufStr(elems(lastBuf.buf), off(lastBuf.buf) + lastBuf.off, len(lastBuf.buf) - lastBuf.off)
 
 //@ func (*bluemonday.Policy).SanitizeBytes
-//@   requires wfp(p) && p.initialized
+//@   requires wfp(p)
+//@   requires[C01,C02,C03,C04,C05,C06,C07,C08,C09,C10,C11,C12,C13,C14,C16,C17,C18,C19,C20] p.initialized
 //@   requires[C16] !outFailed
 //@   modifies ghost outFailed, outN, outLast, outCount, tzCur, tzPrev, tzErr, sanEl, sanRes, lastErr, lastBuf, gD, gSP, gName, gBare, gKept, gCnt, gSkip, gTopBare, gTopKept, gShadow
 //@   modifies nothing
